@@ -1,0 +1,99 @@
+//go:build verif
+
+package txpool
+
+import (
+	"fmt"
+	"sort"
+
+	"github.com/oasisprotocol/oasis-core/go/common/crypto/hash"
+	"github.com/oasisprotocol/oasis-core/go/runtime/host/protocol"
+)
+
+// VerifQueue wraps the package-private main queue and its scheduler for
+// the verification harness. It exists only under the "verif" build tag.
+type VerifQueue struct {
+	q   *mainQueue
+	ids map[hash.Hash]uint64
+}
+
+// NewVerifQueue creates a new wrapped main queue.
+func NewVerifQueue(capacity int) *VerifQueue {
+	return &VerifQueue{
+		q:   newMainQueue(capacity),
+		ids: make(map[hash.Hash]uint64),
+	}
+}
+
+func (v *VerifQueue) meta(id uint64) *TxQueueMeta {
+	raw := []byte(fmt.Sprintf("verif-tx-%d", id))
+	h := hash.NewFromBytes(raw)
+	v.ids[h] = id
+	return &TxQueueMeta{raw: raw, hash: h}
+}
+
+func (v *VerifQueue) toIDs(txs []*TxQueueMeta, sorted bool) []uint64 {
+	out := make([]uint64, 0, len(txs))
+	for _, tx := range txs {
+		out = append(out, v.ids[tx.hash])
+	}
+	if sorted {
+		sort.Slice(out, func(i, j int) bool { return out[i] < out[j] })
+	}
+	return out
+}
+
+func errString(err error) string {
+	if err == nil {
+		return ""
+	}
+	return err.Error()
+}
+
+// Add calls mainQueueScheduler.add.
+func (v *VerifQueue) Add(id uint64, sender string, seq, priority, stateSeq uint64) string {
+	tx := newMainQueueTransaction(v.meta(id), sender, seq, priority)
+	return errString(v.q.scheduler.add(tx, stateSeq))
+}
+
+// QueueAdd calls mainQueue.Add.
+func (v *VerifQueue) QueueAdd(id uint64, sender string, seq, priority, stateSeq uint64) string {
+	meta := &protocol.CheckTxMetadata{
+		Priority:       priority,
+		Sender:         []byte(sender),
+		SenderSeq:      seq,
+		SenderStateSeq: stateSeq,
+	}
+	return errString(v.q.Add(v.meta(id), meta))
+}
+
+// Schedule calls mainQueueScheduler.schedule (no reset).
+func (v *VerifQueue) Schedule(limit int) []uint64 {
+	return v.toIDs(v.q.scheduler.schedule(limit), false)
+}
+
+// Reset calls mainQueueScheduler.reset.
+func (v *VerifQueue) Reset() {
+	v.q.scheduler.reset()
+}
+
+// HandleTxUsed calls mainQueue.HandleTxsUsed for the given transaction.
+func (v *VerifQueue) HandleTxUsed(id uint64) {
+	raw := []byte(fmt.Sprintf("verif-tx-%d", id))
+	v.q.HandleTxsUsed([]hash.Hash{hash.NewFromBytes(raw)})
+}
+
+// Forward calls mainQueueScheduler.forward.
+func (v *VerifQueue) Forward(sender string, seq uint64) {
+	v.q.scheduler.forward(sender, seq)
+}
+
+// Clear calls mainQueueScheduler.clear.
+func (v *VerifQueue) Clear() {
+	v.q.scheduler.clear()
+}
+
+// All returns the identifiers of all queued transactions, sorted.
+func (v *VerifQueue) All() []uint64 {
+	return v.toIDs(v.q.All(), true)
+}
